@@ -1,6 +1,6 @@
 #!/usr/bin/env python3
 # Summarises mutants/RESULTS.txt (latest run of every change against every property it was run against) as markdown.
-import re, collections, json, glob, os
+import re, collections, json, glob, os, sys
 last = collections.OrderedDict()
 for l in open('/verif/mutants/RESULTS.txt'):
     m = re.match(r'(\S+) (\S+) (C\d\d) (\S+) :: (DETECTED|MISSED|SKIPPED)\s*(.*)', l)
@@ -27,6 +27,29 @@ for name in sorted(by):
     else:
         r = runs[-1]
         rows.append((name, r[1].lower(), r[2], ''))
+if '--summary' in sys.argv:
+    per = collections.OrderedDict()
+    for name, res, tier, sig in rows:
+        own = name.split('-')[1] if name.startswith('seed-') else name.split('-')[0].upper()
+        kind = 'seeded by sub-agents' if name.startswith('seed-') else ('reverted fix' if '-revert-' in name else 'hand-written')
+        d = per.setdefault(own, collections.Counter())
+        d[kind + '|n'] += 1
+        if res.startswith('detected'):
+            d[kind + '|d'] += 1
+            if 'by the check of' in res:
+                d['other'] += 1
+        elif res == 'skipped':
+            d[kind + '|s'] += 1
+    print('| property | hand-written | reverted fixes | seeded by sub-agents | detected by a neighbouring check |')
+    print('|---|---|---|---|---|')
+    tot = collections.Counter()
+    for own in sorted(per):
+        d = per[own]
+        cell = lambda k: '%d/%d' % (d[k + '|d'], d[k + '|n']) + (' (%d no longer apply)' % d[k + '|s'] if d[k + '|s'] else '')
+        print('| %s | %s | %s | %s | %d |' % (own, cell('hand-written'), cell('reverted fix'), cell('seeded by sub-agents'), d['other']))
+        tot.update(d)
+    print('| all | %d/%d | %d/%d | %d/%d | %d |' % (tot['hand-written|d'], tot['hand-written|n'], tot['reverted fix|d'], tot['reverted fix|n'], tot['seeded by sub-agents|d'], tot['seeded by sub-agents|n'], tot['other']))
+    sys.exit(0)
 print('| change | result | tier | first signature |')
 print('|---|---|---|---|')
 for r in rows:
